@@ -262,14 +262,14 @@ pub fn rust_call(ch: &rodbus::client::Channel, op: Op, args: &Args, unit: u8, ti
     })
 }
 
-fn take_log() -> String {
+pub(crate) fn take_log() -> String {
     let mut l = WLOG.lock().unwrap();
     let s = if l.is_empty() { "-".to_string() } else { l.join(";") };
     l.clear();
     s
 }
 
-const WAIT: Duration = Duration::from_secs(5);
+pub(crate) const WAIT: Duration = Duration::from_secs(5);
 
 fn exception_token(tok: &str) -> Option<(bool, c_int, u8)> {
     if tok == "ok" {
@@ -320,7 +320,7 @@ pub fn run_wres(tok: &[&str]) -> String {
     format!("rc={} ffi={} app={} rust={} rapp={}", param_error_name(rc), summary(&st), app, rust, rapp)
 }
 
-fn readback(op: Op, args: &Args) -> String {
+pub(crate) fn readback(op: Op, args: &Args) -> String {
     // values now stored at the written addresses of unit 1 (err = absent)
     let (table, idxs): (u8, Vec<u16>) = match args {
         Args::Bit(i, _) => (0, vec![*i]),
@@ -356,13 +356,13 @@ fn readback(op: Op, args: &Args) -> String {
 }
 
 /// a short-lived client channel on the world's C-ABI runtime pointed at `port`
-struct TmpClient {
-    ch: *mut rodbus_ffi::ClientChannel,
-    states: States,
+pub(crate) struct TmpClient {
+    pub(crate) ch: *mut rodbus_ffi::ClientChannel,
+    pub(crate) states: States,
 }
 
 impl TmpClient {
-    fn new(port: u16, max_queued: u16, enable: bool, wait_connected: bool) -> TmpClient {
+    pub(crate) fn new(port: u16, max_queued: u16, enable: bool, wait_connected: bool) -> TmpClient {
         let (ch, states) = create_client(world().runtime.0, port, max_queued, retry_ms(100, 100));
         if enable {
             assert_eq!(unsafe { ffi::rodbus_client_channel_enable(ch) }, 0);
